@@ -4,5 +4,13 @@ LEVEL = 'exploration'
 
 
 def run(ctx):
-    # mutations of base replies, nesting depth, and (as byte sequences a peer can send) the well-formed leaf / long cases
-    respcommon.run(ctx, 'c13', ['mut', 'deep', 'leaves', 'long'], ['MC_neg_mapcount.cfg'])
+    # mutations of base replies, nesting depth, and (as byte sequences a peer can send) the well-formed leaf / long cases;
+    # 'alloc' (round 2): spec/data/RespAlloc.tla - an oversized declared length followed by a partially delivered body, with
+    # the allocation the rule AllocBounded permits for the bytes received; its two negative configs re-introduce
+    # "allocate the declared length on the header" and "extend to the declared length once the first window is full"
+    tier = 'thorough' if ctx.tier == 'thorough' else 'quick'
+    respcommon.run(ctx, 'c13', ['mut', 'deep', 'leaves', 'long', 'alloc'],
+                   ['MC_neg_mapcount.cfg',
+                    ('RespAlloc', 'Alloc_neg_growtodeclared.cfg', 'AllocBounded'),
+                    ('RespAlloc', 'Alloc_neg_prealloc.cfg', 'AllocBounded'),
+                    ('RespAlloc', 'Alloc_%s.cfg' % tier, None)])
